@@ -436,7 +436,7 @@ def coq_eval_fallback(ctx, name, prelude, exprs):
     """The comparison happens inside Coq ("=" per agreeing case), so shards can be large; when many
     cases disagree the printed model lines overflow coqc's stack: retry with small shards."""
     try:
-        return ctx.coq_eval(name, ["Model.CacheFault", "Model.CacheFaultRun"], prelude, exprs, shard=400)
+        return ctx.coq_eval(name, ["Model.CacheFault", "Model.CacheFaultRun"], prelude, exprs, shard=150)
     except RuntimeError as e:
         if "Stack overflow" not in str(e):
             raise
@@ -519,20 +519,22 @@ def run(ctx):
     exprs = []
     for g, s, hist, line in cases:
         hx = hdef.get(id(hist)) or coq_hist(hist)
-        exprs.append(f'agree (observe {gdef[g]} {coq_script(s)} {hx}) "{line}"')
-    model_lines = coq_eval_fallback(ctx, "Cases_C17", "\n".join(prelude), exprs)
+        impl = "[" + "; ".join(f'"{x}"' for x in line.split("/")) + "]"
+        exprs.append(f"agree_hist {gdef[g]} {coq_script(s)} {hx} {impl}")
+    verdicts = coq_eval_fallback(ctx, "Cases_C17", "\n".join(prelude), exprs)
+    bad = [k for k, v in enumerate(verdicts) if v != "="]
+    n_mism = len(bad)
     mism = []
-    n_mism = 0
-    for (g, s, hist, line), ml in zip(cases, model_lines):
-        if ml != "=":
-            n_mism += 1
-            if len(mism) < 5:
-                il, mlist = line.split("/"), ml.split("/")
-                first = next((k for k in range(max(len(il), len(mlist)))
-                              if k >= len(il) or k >= len(mlist) or il[k] != mlist[k]), None)
-                mism.append(dict(where="Model/CacheFault.v vs labrea.cache/labrea.dataset behind a scripted Cache subclass",
-                                 scenario=dict(graph=g, shape=graphs[g], script=s, history=hist_json(hist)),
-                                 first_differing_evaluation=first, impl=line, model=ml))
+    if bad:   # the model's full observation for the first few disagreeing scenarios
+        full = ctx.coq_eval("Diff_C17", ["Model.CacheFault", "Model.CacheFaultRun"], "\n".join(prelude),
+                            [f"observe {gdef[cases[k][0]]} {coq_script(cases[k][1])} {coq_hist(cases[k][2])}" for k in bad[:5]],
+                            shard=5)
+        for k, ml in zip(bad[:5], full):
+            g, s, hist, line = cases[k]
+            mism.append(dict(where="Model/CacheFault.v vs labrea.cache/labrea.dataset behind a scripted Cache subclass",
+                             scenario=dict(graph=g, shape=graphs[g], script=s, history=hist_json(hist)),
+                             first_differing_evaluation=int(verdicts[k].split("#")[0]),
+                             impl=line.split("/"), model=ml.split("/")))
 
     # --- the cache-free yardstick itself against the model's refv/ref_runs
     ref_exprs, ref_lines = [], []
